@@ -161,6 +161,24 @@ theorem dot_of_change_agrees_with_typing (fails : RCmd → Bool) (entry exit : R
     have := dot_repeats_session entry exit typed reps ho hx
     simpa [dotExecs, recordSession, sessionExecs] using this
 
+/-- **Failed commands in between do not change what `.` repeats**: commands that are not repeatable, and
+repeatable ones whose motion failed, leave the recording as it was. -/
+theorem failed_between_does_not_matter (rep : Option Replay) (between : List (RCmd × Bool))
+    (hb : ∀ p ∈ between, p.1.repeatable = false ∨ p.2 = true) :
+    between.foldl (fun r p => recordCmdF r p.1 p.2) rep = rep := by
+  induction between generalizing rep with
+  | nil => rfl
+  | cons p ps ih =>
+    simp only [List.foldl_cons]
+    have hp : recordCmdF rep p.1 p.2 = rep := by
+      rcases hb p (List.mem_cons_self) with h | h <;> simp [recordCmdF, h]
+    rw [hp]
+    exact ih rep (fun q hq => hb q (List.mem_cons_of_mem _ hq))
+
+/-- A command that succeeded is recorded as before. -/
+theorem recordCmdF_of_success (rep : Option Replay) (c : RCmd) : recordCmdF rep c false = recordCmd rep c := by
+  simp [recordCmdF, recordCmd]
+
 theorem legacy_replay_differs :
     let a : RCmd := { kind := .insertMode, verb := some "InsertMode", motion := some "EndOfLine" }
     let t : RCmd := { verb := some "InsertChar('!')", motion := some "ForwardChar" }
